@@ -941,11 +941,13 @@ public:
     /// iterators and references may be invalidated.
     constexpr auto swap(basic_inplace_string& other) noexcept -> void
     {
-        auto const thisSize = size();
-        auto const maxSize  = static_cast<etl::ptrdiff_t>(etl::max(thisSize, other.size()));
+        auto const thisSize  = size();
+        auto const otherSize = other.size();
+        auto const maxSize   = static_cast<etl::ptrdiff_t>(etl::max(thisSize, otherSize));
 
-        etl::swap_ranges(begin(), etl::next(begin(), maxSize + 1), other.begin()); // includes null-terminator
-        unsafe_set_size(other.size());
+        // Only swap the characters. In the tiny layout the element at index capacity() holds the size.
+        etl::swap_ranges(begin(), etl::next(begin(), maxSize), other.begin());
+        unsafe_set_size(otherSize); // writes the null-terminator
         other.unsafe_set_size(thisSize);
     }
 
